@@ -49,8 +49,11 @@ OPEN_CLI = [
     "solver solution into a serialisable output and `evaluated cost of the output = totalCost of the solution` "
     "are hypotheses: the models of C05/C06 (Sol) and of C11 (SRecOutput) are different types)",
     "eval_cost: no theorem relates the shunting-yard parser to Python's grammar (tie only); proved: totality, "
-    "no exception other than the three listed, the algebra of the values, print/parse round trip on "
-    "fully-parenthesised token strings is NOT proved",
+    "no exception other than the three listed, the algebra of the values, and the print/parse round trip on "
+    "fully-parenthesised token strings (clause 1 of C12_eval_cost)",
+    "eval_cost beyond the generated cost space: Python raises OverflowError when an integer >= 2^1023 meets an "
+    "infinite operand and SyntaxError on literals over 4300 digits, where the model returns a value (Review E2.5); "
+    "the generators stop at 10^12 and the theorems' `three exceptions` claim is to be read inside that space",
 ]
 
 
